@@ -117,6 +117,14 @@ fn stage_specs(r: &mut Rng, shape: &str, len: usize, c: usize) -> Vec<StageSpec>
             let kind = Kind::from_letter(ch);
             let keep = match kind {
                 Kind::Filter | Kind::FilterMapO | Kind::FilterMapR => keep_spec(r, len, c),
+                // a third of the flat_maps produce nothing for whole regions of the input
+                Kind::FlatMap if r.chance(1, 3) => match r.below(5) {
+                    0 => Keep::Suffix(r.below(len.max(1) as u64 + 1)),
+                    1 => Keep::Prefix(r.below(len.max(1) as u64 + 1)),
+                    2 => Keep::Blocks { block: (c.max(1) * (1 + r.below(4) as usize)) as u64, phase: r.below(2) },
+                    3 => Keep::Origins((0..1 + r.below(3)).map(|_| r.below(len.max(1) as u64)).collect()),
+                    _ => Keep::Density { d: 40, salt: r.next() },
+                },
                 _ => Keep::All,
             };
             let (fan_base, fan_var) = match kind {
